@@ -39,6 +39,7 @@ func init() {
 		}
 		an := efx.NewAnalyzer(p)
 		EFXValueSemantics(c, "default", an)
+		EFXAlias(c, "default", an)
 		c.R.Extra["efx_stats"] = an.Stats
 	}})
 	Register(&Property{ID: "C20", Trusted: commonTrusted, RuleText: "EFX-RO", Explanation: "read-only (effects)", Run: func(c *Ctx) {
